@@ -513,6 +513,25 @@ func genC13(g *gen) {
 			p = g.randPerm(len(sh))
 		}
 		steps = append(steps, fmt.Sprintf("calcT $0 %s", ints(p)), fmt.Sprintf("T $0 %s", ints(p)), "dump $0")
+		// a second / third transposition on top of the pending one: the same permutation again (the undo test
+		// of Dense.T must compare with the inverse, not with the permutation itself), its inverse, a random one
+		if len(sh) >= 2 && g.r.chance(1, 2) {
+			for rep := 0; rep < 1+g.r.intn(2); rep++ {
+				q := p
+				switch g.r.intn(3) {
+				case 1:
+					q = make([]int, len(p))
+					for i, a := range p {
+						if a >= 0 && a < len(p) {
+							q[a] = i
+						}
+					}
+				case 2:
+					q = g.randPerm(len(sh))
+				}
+				steps = append(steps, fmt.Sprintf("calcT $0 %s", ints(q)), fmt.Sprintf("T $0 %s", ints(q)), "dump $0")
+			}
+		}
 		g.emit(steps...)
 	}
 	// reshape to every factorisation of the size (and wrong sizes), after slicing/transposing/cloning
